@@ -498,6 +498,15 @@ func sameValueExpr(a, b ssa.Value, depth int) bool {
 			}
 		}
 		return true
+	case *ssa.BinOp:
+		y, ok := b.(*ssa.BinOp)
+		return ok && x.Op == y.Op && sameValueExpr(x.X, y.X, depth-1) && sameValueExpr(x.Y, y.Y, depth-1)
+	case *ssa.Const:
+		y, ok := b.(*ssa.Const)
+		return ok && x.Value != nil && y.Value != nil && x.Value.ExactString() == y.Value.ExactString() && types.Identical(x.Type(), y.Type())
+	case *ssa.Convert:
+		y, ok := b.(*ssa.Convert)
+		return ok && types.Identical(x.Type(), y.Type()) && sameValueExpr(x.X, y.X, depth-1)
 	case *ssa.Index:
 		y, ok := b.(*ssa.Index)
 		return ok && sameValueExpr(x.X, y.X, depth-1) && sameValueExpr(x.Index, y.Index, depth-1)
